@@ -481,6 +481,13 @@ class Interp(object):
             if len(vals) == 1 and isinstance(vals[0], (ast.Name, ast.Attribute)):
                 fake = _ModuleCtx(mod)
                 return self.eval(vals[0], {}, fake)
+            if len(vals) == 1:
+                # any other module-level constant (a message built with join/format/concatenation, a table, ...): try to
+                # evaluate it; what cannot be evaluated is an opaque value, which may flow into messages but not into tests
+                try:
+                    return self.eval(vals[0], {}, _ModuleCtx(mod))
+                except AnalysisError:
+                    return Opaque('%s.%s' % (mod.name, nm))
             raise AnalysisError('module-level value %s.%s is outside the shape interpreter' % (mod.name, nm))
         if kind == 'module':
             return ExtV(obj.name)
@@ -976,7 +983,7 @@ class Interp(object):
             if attr in ('pop', 'append', 'insert', 'copy', 'reverse'):
                 return ListMethod(v, attr)
         if isinstance(v, str):
-            if attr in ('format', 'startswith', 'endswith', 'strip', 'lower', 'upper'):
+            if attr in ('format', 'startswith', 'endswith', 'strip', 'lower', 'upper', 'join', 'replace'):
                 return StrMethod(v, attr)
         if isinstance(v, ExcInst):
             if attr == 'args':
@@ -1042,6 +1049,10 @@ class Interp(object):
             return self.list_method(f.lst, f.name, args, node)
         if isinstance(f, StrMethod):
             if f.name == 'format':
+                return f.s
+            if f.name == 'join' and len(args) == 1 and isinstance(args[0], (list, tuple)):
+                return f.s.join(x if isinstance(x, str) else '' for x in args[0])
+            if f.name == 'replace':
                 return f.s
             if f.name in ('startswith', 'endswith') and len(args) == 1 and isinstance(args[0], str):
                 return getattr(f.s, f.name)(args[0])
@@ -1128,6 +1139,14 @@ class Interp(object):
         if name in ('all', 'any') and len(args) == 1 and isinstance(args[0], (list, tuple)):
             vals = [self.truth(x, node) for x in args[0]]
             return all(vals) if name == 'all' else any(vals)
+        if name == 'reversed' and len(args) == 1 and isinstance(args[0], (list, tuple)):
+            return list(reversed(args[0]))
+        if name == 'enumerate' and len(args) == 1 and isinstance(args[0], (list, tuple)):
+            return [(i, x) for i, x in enumerate(args[0])]
+        if name == 'zip' and args and all(isinstance(a, (list, tuple)) for a in args):
+            return [tuple(t) for t in zip(*args)]
+        if name == 'iter' and len(args) == 1 and isinstance(args[0], (list, tuple)):
+            return list(args[0])
         if name in ('max', 'min') and args and all(isinstance(x, int) and not isinstance(x, bool) for x in args):
             return max(args) if name == 'max' else min(args)
         if name == 'print':
